@@ -156,7 +156,7 @@ DecLexical(fd) == {T("1"), T("+1.5"), T("-0.0"), T("1."), T(".5"), T("1e1"), T("
 StrLenProbes(t, mb) ==
   LET ns == UNION {UNION {{t.ll[i].parts[j].lo, t.ll[i].parts[j].hi} : j \in 1..Len(t.ll[i].parts)} : i \in 1..Len(t.ll)}
       small == {n \in 0..8 : \E x \in ns : x \in {Nat2Num(n), Nat2Num(n + 1)} \/ (n > 0 /\ x = Nat2Num(n - 1))}
-  IN {Rp(n, ca) : n \in small} \cup (IF mb THEN {Rp(n, ce) : n \in small} \cup {Rp(n, 128512) : n \in small} ELSE {})
+  IN {Rp(n, ca) : n \in small \cup {9, 17}} \cup (IF mb THEN {Rp(n, ce) : n \in small} \cup {Rp(n, 128512) : n \in small} ELSE {})
 \* the probe lexemes of a compiled type; rich adds lexical variants and multi-byte strings
 RECURSIVE ProbeSet(_, _)
 ProbeSet(t, rich) ==
@@ -182,14 +182,22 @@ BoundSet(t) == IF t.k = "union" THEN UNION {BoundSet(t.members[i]) : i \in 1..Le
                         UNION {UNION {{t.rl[i].parts[j].lo, t.rl[i].parts[j].hi} : j \in 1..Len(t.rl[i].parts)} : i \in 1..Len(t.rl)}}
 BoundTexts(t) == SetToSeq(BoundSet(t))
 \* the vector of one chain: the input and everything the specification prescribes for it
-Vec(ch, fam, rich) ==
+\* extra: further lexemes to probe (the probe lexemes of the sibling leaves of a group)
+VecX(ch, fam, rich, extra) ==
   LET r == CompileChain(ch)
       d == DefaultOf(ch)
-      ps == IF r.ok THEN SetToSeq(ProbeSet(r.t, rich)) ELSE << >>
+      ps == IF r.ok THEN SetToSeq(ProbeSet(r.t, rich) \cup extra) ELSE << >>
   IN [fam |-> fam, chain |-> ch, kc |-> KindClass(ch.k), cj |-> r.j, ok |-> r.ok, why |-> r.why,
       hasDef |-> r.ok /\ d.has, def |-> IF r.ok THEN d.v ELSE << >>,
       bounds |-> IF r.ok THEN BoundTexts(r.t) ELSE << >>,
       probes |-> [i \in 1..Len(ps) |-> ProbeRec(r.t, ps[i])]]
+Vec(ch, fam, rich) == VecX(ch, fam, rich, {})
+\* a group: several chains compiled together as sibling leaves of one module set (typedefs of equal leading
+\* levels are shared).  A leaf's type depends only on its own chain: every member is judged by its own
+\* CompileChain / DefaultOf / Accepts, and probed with the lexemes of all members.
+GVec(g, fam, rich) ==
+  LET all == UNION {LET r == CompileChain(g[i]) IN IF r.ok THEN ProbeSet(r.t, rich) ELSE {} : i \in 1..Len(g)} IN
+  [fam |-> fam, grp |-> [i \in 1..Len(g) |-> VecX(g[i], fam, rich, all)]]
 
 \* ------------------------------------------------------------------ chain families
 \* all chains whose levels are drawn from the menus m1, m2, m3 (depth 1..maxd) with level 1 fixed
@@ -298,6 +306,59 @@ MsgFam ==
   \cup {Chain("string", <<[LnM(<<P2(c1, c4)>>, m1[1], m1[2]) EXCEPT !.pats = <<Pat(ReABC, m2[1], m2[2])>>], [LnM(ln2, m3[1], m3[2]) EXCEPT !.pats = <<Pat(ReStarB, "P2", "")>>]>>) :
           m1 \in {<<"L1", "LT1">>, <<"", "">>}, m2 \in {<<"P1", "PT1">>, <<"", "">>}, m3 \in {<<"L2", "">>, <<"", "">>}, ln2 \in {<< >>, <<P2(c2, c3)>>}}
 
+\* ------------------------------------------------------------------ groups of sibling leaves (group 10)
+Rev(g) == [i \in 1..Len(g) |-> g[Len(g) + 1 - i]]
+BothOrders(G) == G \cup {Rev(g) : g \in G}
+P0(re) == Pat(re, "", "")
+\* (a) the same typedef chain (depth 2 to 4) refined differently by 2-3 sibling leaves, in every order
+StrShared == << <<Pt(<<P0(ReAStar)>>)>>,
+                <<Pt(<<P0(ReABC)>>), Pt(<<P0(ReDot23)>>)>>,
+                <<Pt(<<P0(ReABC)>>), Pt(<<P0(ReDot23)>>), Pt(<<P0(ReAStar)>>)>>,
+                <<Ln(<<P2(c1, c4)>>), Lv0, Ln(<<P2(MinT, c3)>>)>>,
+                <<Lv0, Lv0, Lv0>>,
+                <<WithDef(Pt(<<P0(ReABC)>>), <<ca, cb>>), Lv0, [Lv0 EXCEPT !.len = <<P2(c1, c3)>>, !.pats = <<P0(ReAStar), P0(ReNotB)>>]>> >>
+StrLasts == << Pt(<<P0(ReAltABorC)>>), Pt(<<P0(ReStarB)>>), Pt(<<P0(ReABStarC)>>), Ln(<<P2(c2, c3)>>), Lv0, WithDef(Lv0, <<ca, cc>>),
+               WithDef(Pt(<<P0(ReNotB)>>), <<ca, cc>>), Ln(<<P1(MaxT)>>), Pt(<<P0(ReNotB), P0(ReDot2)>>) >>
+IntShared == << <<Rg(<<P2(c1, c9)>>)>>, <<Rg(<<P2(MinT, MaxT)>>), Rg(<<P2(c1, c5), P2(c7, c9)>>)>>, <<Lv0, Rg(<<P2(c0, T("100"))>>), WithDef(Lv0, c3)>> >>
+IntLasts == << Rg(<<P2(c2, c4)>>), Rg(<<P2(MinT, c3)>>), Rg(<<P2(c8, MaxT)>>), WithDef(Lv0, c5), Lv0, Rg(<<P1(MaxT)>>), WithDef(Rg(<<P2(c2, c4)>>), c4) >>
+DecShared == << <<Rg(<<P2(T("1.5"), T("9.5"))>>)>>, <<Lv0, Rg(<<P2(T("1"), T("2.5")), P2(T("3.0"), T("9"))>>), WithDef(Lv0, T("2.25"))>> >>
+DecLasts == << Rg(<<P2(T("2"), T("2.5"))>>), Rg(<<P2(MinT, T("2.25"))>>), Rg(<<P2(T("3.5"), MaxT)>>), WithDef(Lv0, T("2.5")), Lv0, Rg(<<P1(MinT)>>) >>
+Sibs(k, fd, shared, lasts) == [i \in 1..Len(lasts) |-> [Chain(k, shared \o <<lasts[i]>>) EXCEPT !.levels[1].fd = fd]]
+Pairs(k, fd, sh, ls) == {Sibs(k, fd, sh, <<ls[i], ls[j]>>) : i \in 1..Len(ls), j \in 1..Len(ls)} \ {Sibs(k, fd, sh, <<ls[i], ls[i]>>) : i \in 1..Len(ls)}
+Triples(k, fd, sh, ls) == {Sibs(k, fd, sh, <<ls[i], ls[i + 1], ls[i + 2]>>) : i \in 1..(Len(ls) - 2)} \cup {Sibs(k, fd, sh, <<ls[i + 2], ls[i], ls[i + 1]>>) : i \in 1..(Len(ls) - 2)}
+SharedFam(r) ==
+  CASE r \in 1..6 -> Pairs("string", 0, StrShared[r], StrLasts) \cup Triples("string", 0, StrShared[r], StrLasts)
+    [] r \in 11..13 -> UNION {Pairs(k, 0, IntShared[r - 10], IntLasts) \cup Triples(k, 0, IntShared[r - 10], IntLasts) : k \in {"int8", "uint64"}}
+    [] r \in 21..22 -> Pairs("decimal64", 2, DecShared[r - 20], DecLasts) \cup Triples("decimal64", 2, DecShared[r - 20], DecLasts)
+    [] OTHER -> {}
+\* (b) textually identical restriction arguments (min / max, same pattern) over different bases, in both
+\*     definition orders, in one module, across two modules, and through a typedef of the other module
+InB(ch) == [ch EXCEPT !.mod = "b"]
+Placements(g) == {g, [g EXCEPT ![2] = InB(g[2])], [g EXCEPT ![1] = InB(g[1])], [g EXCEPT ![2] = IF Len(g[2].levels) >= 2 THEN Relaid(g[2], "xmod") ELSE InB(g[2])]}
+StrBases == << << >>, <<Ln(<<P2(c1, c4)>>)>>, <<Ln(<<P2(c2, c8)>>)>>, <<Ln(<<P2(c0, c2), P2(c4, c6)>>)>>, <<Ln(<<P2(c2, c5)>>), Lv0>> >>
+SameStr == << Ln(<<P2(c2, MaxT)>>), Ln(<<P2(MinT, c3)>>), Ln(<<P1(MaxT)>>), Ln(<<P1(MinT)>>), Ln(<<P2(MinT, MaxT)>>),
+              [Lv0 EXCEPT !.len = <<P2(c2, MaxT)>>, !.pats = <<P0(ReAStar)>>], Pt(<<P0(ReABC)>>), WithDef(Ln(<<P2(MinT, c3)>>), <<ca, cb>>) >>
+IntBaseChains == << Chain("int8", << >>), Chain("int8", <<Rg(<<P2(c0, c9)>>)>>), Chain("uint8", << >>), Chain("int16", <<Rg(<<P2(T("-100"), T("1000"))>>)>>), Chain("uint64", <<Lv0>>) >>
+SameInt == << Rg(<<P2(MinT, c5), P2(c7, MaxT)>>), Rg(<<P2(c1, MaxT)>>), Rg(<<P2(MinT, c3)>>), Rg(<<P1(MaxT)>>), Rg(<<P2(MinT, MaxT)>>), WithDef(Rg(<<P2(c2, MaxT)>>), c9) >>
+DecBaseChains == << [Chain("decimal64", << >>) EXCEPT !.mod = "1"], [Chain("decimal64", << >>) EXCEPT !.mod = "2"], [Chain("decimal64", <<Rg(<<P2(T("1.5"), T("9.5"))>>)>>) EXCEPT !.mod = "2"] >>
+SameDec == << Rg(<<P2(MinT, T("2.5")), P2(T("3.0"), MaxT)>>), Rg(<<P2(T("2"), MaxT)>>), Rg(<<P1(MaxT)>>) >>
+\* the restriction goes into the leaf's type statement; a chain without typedefs takes it at its only level
+OnBase(b, L) == [b EXCEPT !.levels = @ \o <<L>>]
+\* decimal bases carry their fraction-digits in mod (placeholder) until the level exists
+FixDec(ch) == [ch EXCEPT !.levels[1].fd = IF ch.mod = "1" THEN 1 ELSE 2, !.mod = "a"]
+\* r = 10 t + x: t = 1 strings, 2 integers, 3 decimal64 with the x-th restriction text; t = 4: three leaves
+DiffBaseFam(r) ==
+  LET t == r \div 10  x == r % 10 IN
+  CASE t = 1 /\ x \in 1..Len(SameStr) -> UNION {Placements(<<Chain("string", StrBases[i] \o <<SameStr[x]>>), Chain("string", StrBases[j] \o <<SameStr[x]>>)>>) : i \in 1..Len(StrBases), j \in 1..Len(StrBases)}
+    [] t = 2 /\ x \in 1..Len(SameInt) -> UNION {Placements(<<OnBase(IntBaseChains[i], SameInt[x]), OnBase(IntBaseChains[j], SameInt[x])>>) : i \in 1..Len(IntBaseChains), j \in 1..Len(IntBaseChains)}
+    [] t = 3 /\ x \in 1..Len(SameDec) -> UNION {Placements(<<FixDec(OnBase(DecBaseChains[i], SameDec[x])), FixDec(OnBase(DecBaseChains[j], SameDec[x]))>>) : i \in 1..Len(DecBaseChains), j \in 1..Len(DecBaseChains)}
+    [] t = 4 -> {<<Chain("string", StrBases[2] \o <<SameStr[1]>>), Chain("string", StrBases[1] \o <<SameStr[1]>>), Chain("string", StrBases[3] \o <<SameStr[1]>>)>>,
+                 <<Chain("string", StrBases[1] \o <<SameStr[2]>>), InB(Chain("string", StrBases[3] \o <<SameStr[2]>>)), Chain("string", StrBases[2] \o <<SameStr[2]>>)>>,
+                 <<OnBase(IntBaseChains[3], SameInt[2]), OnBase(IntBaseChains[1], SameInt[2]), InB(OnBase(IntBaseChains[4], SameInt[2]))>>}
+    [] OTHER -> {}
+\* fam 10000 + r: r < 100 shared chains, r >= 100 different bases
+GroupsOf(fam) == LET r == fam % 1000 IN IF r < 100 THEN SharedFam(r) ELSE DiffBaseFam(r - 100)
+
 \* ------------------------------------------------------------------ seeded random chains (TLC RandomElement, -seed)
 RandOf(s) == s[RandomElement(1..Len(s))]
 \* every TLC worker starts from the same random stream: a family first discards a number of draws of its own
@@ -343,9 +404,8 @@ RandGrow(ch, more) ==
                  ELSE IF t.k \in NumKinds THEN WithDef(L1, ShowFor(t, RandomElement(Pool(t)))) ELSE WithDef(L1, RandStr(FALSE))
        IN RandGrow([ch EXCEPT !.levels = Append(@, L2)], more - 1)
 RandKinds == <<"int8", "uint8", "int16", "uint16", "int32", "uint32", "int64", "uint64", "decimal64", "decimal64", "string", "string">>
-RandChain(u_) ==
-  LET k == RandOf(RandKinds)
-      fd == RandOf(<<1, 2, 3, 6, 12, 17, 18>>)
+RandChainK(k) ==
+  LET fd == RandOf(<<1, 2, 3, 6, 12, 17, 18>>)
       lay == RandOf(<<"top", "top", "local", "xmod">>)
       start == Relaid(Chain(k, <<IF k = "decimal64" THEN [Lv0 EXCEPT !.fd = fd] ELSE Lv0>>), lay)
       r0 == CompileChain(start).t
@@ -353,6 +413,19 @@ RandChain(u_) ==
                ELSE IF k = "string" THEN [start EXCEPT !.levels[1].len = IF Coin(3) THEN << >> ELSE RandLenParts(0), !.levels[1].pats = IF Coin(2) THEN << >> ELSE <<Pat(RandOf(AllPats), "", "")>>]
                ELSE start
   IN RandGrow(first, RandomElement(0..3))
+RandChain(u_) == RandChainK(RandOf(RandKinds))
+\* a random group: a random chain and a sibling that either refines the same typedefs with another random last
+\* level or applies the very same last level to another random base of the same built-in type
+RandGroup(u_) ==
+  LET ch == RandChain(u_)
+      n == Len(ch.levels)
+      last == ch.levels[n]
+      other == RandChainK(ch.k)
+      m == Len(other.levels)
+      sib == IF n >= 2 /\ Coin(2) THEN RandGrow([ch EXCEPT !.levels = SubSeq(@, 1, n - 1)], 1)
+             ELSE [other EXCEPT !.levels[m].rng = last.rng, !.levels[m].len = last.len, !.levels[m].pats = last.pats, !.mod = ch.mod, !.lay = IF ch.lay = "xmod" \/ @ = "xmod" THEN "top" ELSE @]
+      sib2 == IF ch.lay = "xmod" /\ sib.lay # "xmod" THEN [sib EXCEPT !.mod = "b"] ELSE sib
+  IN IF Coin(2) THEN <<ch, sib2>> ELSE <<sib2, ch>>
 \* random lexemes for a compiled type: digit strings around the bounds, sign / zero variants, 17-20 digit values, random Unicode
 RandLexemes(t, n, rich) ==
   IF t.k \in NumKinds THEN
@@ -395,6 +468,8 @@ ChainsOf(fam, maxd) ==
 Rich(fam) == fam \div 1000 = 8
 \* Vectors(fam, maxd, nrand): the set of vectors of a family; group 9 = seeded random chains
 Vectors(fam, maxd, nrand) ==
-  IF fam \div 1000 = 9 THEN (IF Burn(fam % 1000) THEN {RandVec(fam, 12, i) : i \in 1..nrand} ELSE {})
+  IF fam \div 1000 = 10 THEN {GVec(g, fam, FALSE) : g \in GroupsOf(fam)}
+  ELSE IF fam \div 1000 = 11 THEN (IF Burn(fam % 1000) THEN {GVec(RandGroup(i), fam, fam % 1000 >= 100) : i \in 1..nrand} ELSE {})
+  ELSE IF fam \div 1000 = 9 THEN (IF Burn(fam % 1000) THEN {RandVec(fam, 12, i) : i \in 1..nrand} ELSE {})
   ELSE {Vec(ch, fam, Rich(fam)) : ch \in ChainsOf(fam, maxd)}
 =============================================================================
